@@ -220,8 +220,12 @@ func catalogue() []recipe {
 			cb := d.Msg.Transactions[0]
 			hp := chaingen.HeightPush(d.Height)
 			if n < len(hp) {
-				if n == 1 && d.Height <= 16 {
-					cb.TxIn[0].SignatureScript = hp[:1]
+				if n == 1 {
+					// one byte: too short whatever it is (the length rule is a sanity rule and comes first)
+					cb.TxIn[0].SignatureScript = []byte{0x51}
+					if d.Height <= 16 {
+						cb.TxIn[0].SignatureScript = hp[:1]
+					}
 					return true
 				}
 				return false
